@@ -187,7 +187,12 @@ func scalePhase(p *seqProp) *seqProp {
 	d.Docs = scaleDocs
 	d.Depth = 2
 	d.Opts = p.Opts[:1]
-	d.Alpha = []*AlphaCfg{{Custom: scaleOps}, {Custom: scaleOpsSmall}}
+	first, second := scaleOps, scaleOpsSmall
+	if len(p.Alpha) > 0 && p.Alpha[0].NoRootAdd {
+		// the legacy package offers no add "" / copy from "": outside C18's domain, as in its main phase
+		first, second = noRootAdd(scaleOps), noRootAdd(scaleOpsSmall)
+	}
+	d.Alpha = []*AlphaCfg{{Custom: first}, {Custom: second}}
 	d.Rule = "SCALE: a 40-member object, arrays of 600 numbers and of 260 objects, a 14-level document; all sequences <= 2 over a hand-picked alphabet (first / middle / last / beyond positions, indices around 255|256 and 511|512 and their negatives, 20-digit tokens, an 80-byte value); same oracle"
 	return &d
 }
@@ -257,4 +262,17 @@ func neighbourObjects() []*rj.Value {
 		}
 	}
 	return out
+}
+
+func noRootAdd(f func(d *rj.Value) []r69.Op) func(d *rj.Value) []r69.Op {
+	return func(d *rj.Value) []r69.Op {
+		var out []r69.Op
+		for _, o := range f(d) {
+			if (o.Kind == "add" && o.Path == "") || (o.Kind == "copy" && o.From == "") {
+				continue
+			}
+			out = append(out, o)
+		}
+		return out
+	}
 }
